@@ -652,19 +652,19 @@ pub fn run(ctx: &Ctx) -> RunResult {
     rr.absorb(run_prop(
         ctx,
         "strings",
-        ctx.pick(60_000, 1_000_000),
+        ctx.pick(300_000, 3_000_000),
         || (arb_string(), arb_string(), prop_oneof![300u16..700, any::<u16>()]).prop_map(|(s, t, code)| StrCase { s, t, code }),
         |c, st| check_strings(c, st),
     ));
-    rr.absorb(run_prop(ctx, "cookie", ctx.pick(20_000, 300_000), arb_cookie, |c, st| check_cookie(c, st)));
+    rr.absorb(run_prop(ctx, "cookie", ctx.pick(100_000, 1_000_000), arb_cookie, |c, st| check_cookie(c, st)));
     rr.absorb(run_prop(
         ctx,
         "attr",
-        ctx.pick(40_000, 600_000),
+        ctx.pick(200_000, 2_000_000),
         || prop_oneof![8 => arb_plain_attr(GenOpts::default()), 1 => arb_tail().prop_filter_map("empty tail", |t| t.into_iter().next())],
         |a, st| check_attr(a, st),
     ));
-    rr.absorb(run_prop(ctx, "clone", ctx.pick(40_000, 1_000_000), arb_clone_case, |c, st| check_clone(c, st)));
+    rr.absorb(run_prop(ctx, "clone", ctx.pick(200_000, 2_000_000), arb_clone_case, |c, st| check_clone(c, st)));
     rr
 }
 
